@@ -267,6 +267,15 @@ class _SymRow:
     def __lt__(self, o):
         return rnp.array([bool(v < o) for v in self.vals])
 
+    def __le__(self, o):
+        return rnp.array([bool(v <= o) for v in self.vals])
+
+    def __gt__(self, o):
+        return rnp.array([bool(v > o) for v in self.vals])
+
+    def __ge__(self, o):
+        return rnp.array([bool(v >= o) for v in self.vals])
+
 
 # ------------------------------------------------------------------ (R4) re-mapping an existing system
 @unit("C01", "Rvectors.remap_XX_R (used by System_R.do_ws_dist) keeps the matrices at every mesh point", scope="shape:cubic 2x2x2 and triclinic 4x2x1, old R list with vectors outside the mesh box", expect_min=2)
